@@ -204,10 +204,17 @@ def shard_embed(arg):
     idxs, = arg
     c15._init()
     st = Stats()
+    # inner parameters spelled like the outer's star parameters without being the matching star
+    crossed = [(Par('args', POK),), (Par('args', POK), Par('kwargs', POK, '1')), (Par('kwargs', KWO),), (Par('x', POK), Par('args', KWO, '1')),
+               (Par('kwargs', VP), Par('args', VK)), (Par('args', PO), Par('kwargs', VK))]
     for i in idxs:
         for si in c15._INN:
             for uva, uvk in c15.FLAGS2:
                 check_algebra('embed', (c15._OUT[i], si), {'use_varargs': uva, 'use_varkwargs': uvk}, st, True)
+        for si in crossed:
+            for uva, uvk in c15.FLAGS2:
+                check_algebra('embed', (c15._OUT[i], si), {'use_varargs': uva, 'use_varkwargs': uvk}, st, True)
+                check_algebra('forwards', (c15._OUT[i], si), {'n': 0, 'names': [], 'flags': {'use_varargs': uva, 'use_varkwargs': uvk}}, st, True)
     return st
 
 
